@@ -466,12 +466,101 @@ impl Check {
         }
     }
 
+    /// Run the same check binary built with another cargo profile (e.g. `checked` = overflow
+    /// checks + debug assertions) as a child process and merge what it found.
+    pub fn merge_profile_child(&mut self, profile: &str) {
+        if std::env::var_os("VERIF_CHILD_OUT").is_some() {
+            return;
+        }
+
+        let exe = std::env::current_exe().expect("current exe");
+        let name = exe.file_name().unwrap().to_owned();
+        let child_exe = exe.parent().unwrap().parent().unwrap().join(profile).join(name);
+
+        if !child_exe.exists() {
+            eprintln!("profile binary {} is missing (run through ./check, which builds it)", child_exe.display());
+            std::process::exit(2);
+        }
+
+        let out = std::env::temp_dir().join(format!("verif-child-{}-{}-{}.json", self.property, profile, std::process::id()));
+        let status = std::process::Command::new(&child_exe)
+            .arg("--tier")
+            .arg(self.args.tier.name())
+            .arg("--seed")
+            .arg(self.args.seed.to_string())
+            .args(if self.args.strict { vec!["--strict"] } else { vec![] })
+            .env("VERIF_CHILD_OUT", &out)
+            .status();
+
+        match status {
+            Ok(st) if st.code() == Some(0) => {}
+            other => {
+                eprintln!("profile child {} failed: {other:?}", child_exe.display());
+                std::process::exit(2);
+            }
+        }
+
+        let body: Value = serde_json::from_str(&std::fs::read_to_string(&out).unwrap_or_default()).unwrap_or(Value::Null);
+        let _ = std::fs::remove_file(&out);
+
+        self.stats.evaluations += body["evaluations"].as_u64().unwrap_or(0);
+
+        for fp in body["nontrivial"].as_array().cloned().unwrap_or_default() {
+            if let Some(f) = fp.as_u64() {
+                // Same case under another profile is another evaluation, not another distinct case
+                self.stats.nontrivial.insert(f);
+            }
+        }
+
+        for (k, v) in body["classes"].as_object().cloned().unwrap_or_default() {
+            *self.stats.classes.entry(format!("{profile}:{k}")).or_default() += v.as_u64().unwrap_or(0);
+        }
+
+        for (k, v) in body["kf_hits"].as_object().cloned().unwrap_or_default() {
+            *self.stats.kf_hits.entry(k).or_default() += v.as_u64().unwrap_or(0);
+        }
+
+        for v in body["violations"].as_array().cloned().unwrap_or_default() {
+            let sig = v["signature"].as_str().unwrap_or("").to_string();
+
+            if !self.violations.iter().any(|x| x.signature == sig) {
+                self.violations.push(Violation {
+                    signature: sig,
+                    message: format!("[profile {profile}] {}", v["message"].as_str().unwrap_or("")),
+                    kind: v["kind"].as_str().unwrap_or("").to_string(),
+                    case: v["case"].clone(),
+                });
+            }
+        }
+
+        self.stats.sub_runs.push(json!({"kind": format!("profile:{profile}"), "evaluations": body["evaluations"], "sub_runs": body["sub_runs"]}));
+        self.extra_coverage.insert("profiles".into(), json!(["release", profile]));
+    }
+
     pub fn coverage(&mut self, key: &str, v: Value) {
         self.extra_coverage.insert(key.to_string(), v);
     }
 
     /// Write evidence, print verdict lines, and exit.
     pub fn finish(mut self) -> ! {
+        if let Some(out) = std::env::var_os("VERIF_CHILD_OUT") {
+            // Child of a multi-profile run: hand everything to the parent
+            let body = json!({
+                "evaluations": self.stats.evaluations,
+                "nontrivial": self.stats.nontrivial.iter().collect::<Vec<_>>(),
+                "classes": self.stats.classes,
+                "kf_hits": self.stats.kf_hits,
+                "sub_runs": self.stats.sub_runs,
+                "violations": self.violations.iter().map(|v| json!({"signature": v.signature, "message": v.message, "kind": v.kind, "case": v.case})).collect::<Vec<_>>(),
+            });
+
+            if std::fs::write(&out, serde_json::to_string(&body).unwrap()).is_err() {
+                std::process::exit(2);
+            }
+
+            std::process::exit(0);
+        }
+
         let wall = self.start.elapsed().as_secs_f64();
         let root = PathBuf::from(VERIF_ROOT);
 
@@ -615,6 +704,173 @@ impl Check {
     }
 }
 
+// ---------------------------------------------------------------------------------------------
+// Crash guard: memory-unsafe behaviour of the code under test (SIGSEGV / SIGBUS / SIGABRT / SIGILL)
+// must surface as a violation with a replay file, not as a dead check process.
+// ---------------------------------------------------------------------------------------------
+
+const CRASH_SLOTS: usize = 64;
+const CRASH_SLOT_BYTES: usize = 1 << 20;
+
+static CRASH_BUFS: [std::sync::atomic::AtomicPtr<u8>; CRASH_SLOTS] = [const { std::sync::atomic::AtomicPtr::new(std::ptr::null_mut()) }; CRASH_SLOTS];
+static CRASH_LENS: [std::sync::atomic::AtomicUsize; CRASH_SLOTS] = [const { std::sync::atomic::AtomicUsize::new(0) }; CRASH_SLOTS];
+static CRASH_PATH: std::sync::atomic::AtomicPtr<u8> = std::sync::atomic::AtomicPtr::new(std::ptr::null_mut());
+static CRASH_LINE: std::sync::atomic::AtomicPtr<u8> = std::sync::atomic::AtomicPtr::new(std::ptr::null_mut());
+static CRASH_HEAD: std::sync::atomic::AtomicPtr<u8> = std::sync::atomic::AtomicPtr::new(std::ptr::null_mut());
+static CRASH_ON: std::sync::atomic::AtomicBool = std::sync::atomic::AtomicBool::new(false);
+
+thread_local! {
+    static CRASH_SLOT: std::cell::Cell<usize> = const { std::cell::Cell::new(usize::MAX) };
+}
+
+static CRASH_NEXT_SLOT: std::sync::atomic::AtomicUsize = std::sync::atomic::AtomicUsize::new(0);
+
+fn leak_cstr(s: String) -> *mut u8 {
+    let mut v = s.into_bytes();
+
+    v.push(0);
+
+    Box::leak(v.into_boxed_slice()).as_mut_ptr()
+}
+
+extern "C" fn crash_handler(sig: libc::c_int) {
+    use std::sync::atomic::Ordering::SeqCst;
+
+    unsafe {
+        let path = CRASH_PATH.load(SeqCst);
+        let fd = libc::open(path.cast(), libc::O_WRONLY | libc::O_CREAT | libc::O_TRUNC, 0o644);
+
+        if fd >= 0 {
+            let head = CRASH_HEAD.load(SeqCst);
+
+            libc::write(fd, head.cast(), libc::strlen(head.cast()));
+
+            let digits = [b'0' + (sig / 10) as u8, b'0' + (sig % 10) as u8];
+
+            libc::write(fd, digits.as_ptr().cast(), 2);
+            libc::write(fd, b"\",\"case\":[".as_ptr().cast(), 10);
+
+            let mut first = true;
+
+            for i in 0..CRASH_SLOTS {
+                let p = CRASH_BUFS[i].load(SeqCst);
+                let l = CRASH_LENS[i].load(SeqCst);
+
+                if !p.is_null() && l > 0 {
+                    if !first {
+                        libc::write(fd, b",".as_ptr().cast(), 1);
+                    }
+
+                    first = false;
+                    libc::write(fd, p.cast(), l);
+                }
+            }
+
+            libc::write(fd, b"]}\n".as_ptr().cast(), 3);
+            libc::close(fd);
+        }
+
+        let line = CRASH_LINE.load(SeqCst);
+
+        libc::write(1, line.cast(), libc::strlen(line.cast()));
+        libc::_exit(1);
+    }
+}
+
+/// Install the crash guard for `property`. From then on every case a `run_prop` worker is about
+/// to evaluate is recorded, and a fatal signal writes those cases to a replay file and reports a
+/// violation.
+pub fn install_crash_guard(property: &str) {
+    use std::sync::atomic::Ordering::SeqCst;
+
+    let dir = format!("{VERIF_ROOT}/replays/{property}");
+    let _ = std::fs::create_dir_all(&dir);
+    let path = format!("{dir}/violation-crash.json");
+
+    CRASH_LINE.store(leak_cstr(format!("VIOLATION property={property} replay={path}\n")), SeqCst);
+    CRASH_HEAD.store(
+        leak_cstr(format!("{{\"property\":\"{property}\",\"kind\":\"crash\",\"message\":\"the check process received a fatal signal while evaluating one of the listed cases\",\"signature\":\"{property}|crash|signal-")),
+        SeqCst,
+    );
+    CRASH_PATH.store(leak_cstr(path), SeqCst);
+
+    unsafe {
+        // Alternate stack so that stack overflows are caught too
+        let stack_size = 1 << 16;
+        let stack = Box::leak(vec![0u8; stack_size].into_boxed_slice());
+        let ss = libc::stack_t {
+            ss_sp: stack.as_mut_ptr().cast(),
+            ss_flags: 0,
+            ss_size: stack_size,
+        };
+
+        libc::sigaltstack(&ss, std::ptr::null_mut());
+
+        for sig in [libc::SIGSEGV, libc::SIGBUS, libc::SIGABRT, libc::SIGILL] {
+            let mut sa: libc::sigaction = std::mem::zeroed();
+
+            sa.sa_sigaction = crash_handler as usize;
+            sa.sa_flags = libc::SA_ONSTACK | libc::SA_RESETHAND;
+            libc::sigemptyset(&mut sa.sa_mask);
+            libc::sigaction(sig, &sa, std::ptr::null_mut());
+        }
+    }
+
+    CRASH_ON.store(true, SeqCst);
+}
+
+/// Record the case the calling thread is about to evaluate.
+pub fn crash_record<T: Serialize>(kind: &str, value: &T) {
+    use std::sync::atomic::Ordering::SeqCst;
+
+    if !CRASH_ON.load(SeqCst) {
+        return;
+    }
+
+    let slot = CRASH_SLOT.with(|c| {
+        if c.get() == usize::MAX {
+            c.set(CRASH_NEXT_SLOT.fetch_add(1, SeqCst) % CRASH_SLOTS);
+        }
+
+        c.get()
+    });
+
+    let mut p = CRASH_BUFS[slot].load(SeqCst);
+
+    if p.is_null() {
+        p = Box::leak(vec![0u8; CRASH_SLOT_BYTES].into_boxed_slice()).as_mut_ptr();
+        CRASH_BUFS[slot].store(p, SeqCst);
+    }
+
+    let body = serde_json::to_vec(&json!({"kind": kind, "case": value})).unwrap_or_default();
+    let n = body.len().min(CRASH_SLOT_BYTES);
+
+    CRASH_LENS[slot].store(0, SeqCst);
+
+    unsafe {
+        std::ptr::copy_nonoverlapping(body.as_ptr(), p, n);
+    }
+
+    CRASH_LENS[slot].store(if n == body.len() { n } else { 0 }, SeqCst);
+}
+
+/// The candidate cases of a crash replay file: `(kind, case)`.
+pub fn crash_candidates(path: &std::path::Path) -> Option<Vec<(String, Value)>> {
+    let v: Value = serde_json::from_str(&std::fs::read_to_string(path).ok()?).ok()?;
+
+    if v["kind"].as_str()? != "crash" {
+        return None;
+    }
+
+    Some(
+        v["case"]
+            .as_array()?
+            .iter()
+            .map(|c| (c["kind"].as_str().unwrap_or("").to_string(), c["case"].clone()))
+            .collect(),
+    )
+}
+
 thread_local! {
     static LAST_PANIC: RefCell<Option<String>> = const { RefCell::new(None) };
 }
@@ -654,6 +910,11 @@ pub fn panic_site(msg: &str) -> String {
         Some((_, loc)) => {
             let loc = loc.trim();
             let loc = loc.strip_prefix("/repo/").unwrap_or(loc);
+            // Third-party crates: keep "<crate>-<version>/src/..." only
+            let loc = match loc.find("/registry/src/") {
+                Some(i) => loc[i + 14..].split_once('/').map(|(_, rest)| rest).unwrap_or(loc),
+                None => loc,
+            };
             // Drop the line number: signatures must survive unrelated edits
             loc.rsplit_once(':').map(|(f, _)| f).unwrap_or(loc).to_string()
         }
@@ -708,6 +969,8 @@ where
 
     let result = runner.run(&strat, |value| {
         let mut info = CaseInfo::default();
+
+        crash_record(kind, &value);
 
         let res = match catch(|| f(&value, &mut info)) {
             Ok(r) => r,
